@@ -228,6 +228,13 @@ func execWire(a []string) Result {
 		}
 		f, err := tokenFields(d)
 		add("token", f, err, d.Root().Bytes())
+		// the same token as the issuance model predicts it from the OPTIONS it was issued with (which
+		// optional fields are written, which of two options of a kind holds)
+		if f != nil {
+			if ol, oerr := optsList(&s); oerr == nil {
+				add("issued", map[string]any{"v": f["v"], "iss": f["iss"], "aud": f["aud"], "s": f["s"], "att": f["att"], "opts": ol}, nil, d.Root().Bytes())
+			}
+		}
 		// and as it comes back from an archive
 		if ab, err := io.ReadAll(d.Archive()); err == nil {
 			if x, err := delegation.Extract(ab); err == nil {
@@ -422,4 +429,110 @@ func issueUSpec(s *USpec) (delegation.Delegation, error) {
 	}
 	opts = append(opts, delegation.WithFacts(fb))
 	return delegation.Delegate(sg, audS, caps, opts...)
+}
+
+// optsList: the options issueUSpec applies, in the order it applies them, in the form the driver reads
+func optsList(s *USpec) ([]any, error) {
+	var out []any
+	cidHex := func(c string) (string, error) {
+		cc, err := cid.Decode(c)
+		if err != nil {
+			return "", err
+		}
+		return hx(cc.Bytes()), nil
+	}
+	for _, o := range s.PreOpts {
+		switch {
+		case o == "noexp":
+			out = append(out, map[string]any{"o": "noexp"})
+		case strings.HasPrefix(o, "exp:"):
+			out = append(out, map[string]any{"o": "exp", "i": fmt.Sprint(atoi(o[4:]))})
+		case strings.HasPrefix(o, "nbf:"):
+			out = append(out, map[string]any{"o": "nbf", "i": fmt.Sprint(atoi(o[4:]))})
+		case strings.HasPrefix(o, "nnc:"):
+			out = append(out, map[string]any{"o": "nnc", "s": hx([]byte(o[4:]))})
+		case strings.HasPrefix(o, "prf:"):
+			h, err := cidHex(o[4:])
+			if err == nil {
+				out = append(out, map[string]any{"o": "prf", "l": []any{h}})
+			}
+		}
+	}
+	if s.Fields.Exp == nil {
+		out = append(out, map[string]any{"o": "noexp"})
+	} else {
+		out = append(out, map[string]any{"o": "exp", "i": fmt.Sprint(*s.Fields.Exp)})
+	}
+	if s.Fields.Nbf != nil {
+		out = append(out, map[string]any{"o": "nbf", "i": fmt.Sprint(*s.Fields.Nbf)})
+	}
+	if s.Fields.Nnc != nil {
+		out = append(out, map[string]any{"o": "nnc", "s": hx([]byte(*s.Fields.Nnc))})
+	}
+	prf := []any{}
+	for _, p := range s.Fields.Prf {
+		h, err := cidHex(p)
+		if err != nil {
+			return nil, err
+		}
+		prf = append(prf, h)
+	}
+	out = append(out, map[string]any{"o": "prf", "l": prf})
+	fct := []any{}
+	for _, f := range s.Fields.Fct {
+		ents := []any{}
+		seen := map[string]bool{}
+		for _, kv := range f {
+			if seen[kv.K] {
+				return nil, fmt.Errorf("duplicate fact key")
+			}
+			seen[kv.K] = true
+			n, err := kv.V.node()
+			if err != nil {
+				return nil, err
+			}
+			cj, err := nodeToCJ(n)
+			if err != nil {
+				return nil, err
+			}
+			ents = append(ents, []any{hx([]byte(kv.K)), cj})
+		}
+		fct = append(fct, ents)
+	}
+	out = append(out, map[string]any{"o": "fct", "f": fct})
+	return out, nil
+}
+
+// genIssued: tokens whose interest is in the options they are issued with
+func genIssued(cfg Config, emit Emit, n int) {
+	r := cfg.Rng
+	pre := [][]string{nil, {"exp:1999999999"}, {"noexp"}, {"nbf:7", "nnc:earlier"}, {"noexp", "exp:1888888888"}, {"nbf:0"}, {"nbf:-3", "nbf:0"}, {"nnc:"}, {"nnc:x", "nnc:"},
+		{"prf:" + cidPool[0]}, {"exp:5", "noexp", "exp:-5"}, {"nbf:5", "noexp", "nnc:a", "exp:77", "nbf:-9"}}
+	for i := 0; i < n; i++ {
+		var s USpec
+		s.Key = []string{"ed0", "ed1", "rsa0", "wrap3", "wrapU1"}[i%5]
+		s.Aud = fmt.Sprintf("ed%d", 12+r.Intn(6))
+		s.Fields.Att = []UCap{{Can: "store/add", With: "did:key:z6MkExample", Nb: tvMap(nil)}}
+		s.PreOpts = pre[r.Intn(len(pre))]
+		if r.Intn(2) == 0 {
+			e := []int{-5, 0, 1, 1800000000, 1 << 31, 1<<53 + 1, 1<<62 + 3}[r.Intn(7)]
+			s.Fields.Exp = &e
+		}
+		if r.Intn(2) == 0 {
+			nb := []int{0, -1, -7, 1, 1700000000, 1 << 40, -(1 << 40)}[r.Intn(7)]
+			s.Fields.Nbf = &nb
+		}
+		if r.Intn(2) == 0 {
+			nn := []string{"", "n", "ünï", "0"}[r.Intn(4)]
+			s.Fields.Nnc = &nn
+		}
+		for p := r.Intn(3); p > 0; p-- {
+			s.Fields.Prf = append(s.Fields.Prf, cidPool[r.Intn(len(cidPool))])
+		}
+		for f := r.Intn(3); f > 0; f-- {
+			s.Fields.Fct = append(s.Fields.Fct, []KV{{"k", tvInt(int64(f))}, {"aa", tvStr("v")}}[:1+r.Intn(2)])
+		}
+		s.Alter = "none"
+		emit("wire", []string{"uspec", mustJSON(&s)}, "wire/issued-options", true)
+	}
 }
